@@ -61,6 +61,17 @@ func c06QEGadget(k int) gadget.Fn {
 	}
 }
 
+// c06DoubleGadget: two checks of the same variable, the wider one first; the accepted set is
+// that of the narrower check.
+func c06DoubleGadget(api frontend.API, in []frontend.Variable) []frontend.Variable {
+	g := gl.New(api)
+	x := gl.NewVariable(in[0])
+	g.RangeCheckWithMaxBits(x, 64)
+	g.RangeCheckWithMaxBits(x, 32)
+	g.RangeCheckWithMaxBits(x, 48)
+	return nil
+}
+
 func c06BitsGadget(n int) gadget.Fn {
 	return func(api frontend.API, in []frontend.Variable) []frontend.Variable {
 		gl.New(api).RangeCheckWithMaxBits(gl.NewVariable(in[0]), uint64(n))
@@ -218,6 +229,19 @@ func c06EngineAccepts(face engine.Face, pad bool, fn gadget.Fn, v *big.Int, isGL
 			res = harnRunCommitPaddedOpt(opt, func(api frontend.API) { fn(api, []frontend.Variable{v}) }, gadget.PadCommit)
 		} else {
 			_, res = gadget.EngineEval(engine.Options{Face: face, Policy: pol}, fn, []*big.Int{v})
+			if res.Verdict == engine.Reject {
+				// the same value as a circuit CONSTANT (builders and this engine report constants;
+				// a constant must be checked like any other operand)
+				rc := harnRunOpt(engine.Options{Face: face, Policy: pol}, func(api frontend.API) error {
+					fn(api, []frontend.Variable{v})
+					return nil
+				})
+				o.Events += events(rc)
+				if rc.Verdict == engine.Accept {
+					rc.Msg = "as a constant operand"
+					return rc
+				}
+			}
 		}
 		o.Events += events(res)
 		return res
@@ -443,6 +467,7 @@ func init() {
 							env = envBD
 						}
 						add(exec, mech, "gl", 0, env)
+						add(exec, mech, "dbl", 32, env)
 						if exec == "engine" || mech == "commit" || !ctx.Quick {
 							add(exec, mech, "qe0", 0, env)
 							add(exec, mech, "qe1", 0, env)
@@ -457,8 +482,13 @@ func init() {
 				// its limb width from the number of checks, and a 32-bit check is only exact when
 				// that width divides 32; such a circuit must be refused or checked exactly
 				for _, exec := range []string{"engine", "r1cs", "scs"} {
-					for _, pad := range []int{0, 20, 100, 3000, 40000} {
+					// 63487 further checks = 63488 in all: the size at which limb widths 11 and 16 cost
+					// exactly the same in gnark's R1CS cost model (3M + 2^11 = 2M + 2^16)
+					for _, pad := range []int{0, 20, 100, 3000, 40000, 63486, 63487, 63488} {
 						if ctx.Quick && exec == "scs" && pad != 100 {
+							continue
+						}
+						if ctx.Quick && exec == "r1cs" && pad == 63486 {
 							continue
 						}
 						cs = append(cs, fw.Case{ID: fmt.Sprintf("midsize/%s/%d", exec, pad), Kind: "midsize", P: map[string]any{"exec": exec, "pad": pad}})
@@ -562,6 +592,8 @@ func init() {
 					fn = c06QEGadget(0)
 				case gad == "qe1":
 					fn = c06QEGadget(1)
+				case gad == "dbl":
+					fn = c06DoubleGadget
 				case !isGL:
 					fn = c06BitsGadget(n)
 				}
